@@ -49,9 +49,9 @@ def run(ctx):
         'samples': (reads[0].get('samples') or [])[:3] + (rw.get('samples') or [])[:2],
         'exhaustive': True,
         'read_edges_replayed': total_edges, 'read_by_type': reads[0]['actions'],
-        'read_outcomes_differing_from_code_order_layer': [r['extra']['outcomes_differing_from_implementation_shaped_layer'] for r in reads],
+        'read_outcomes_differing_from_code_order_layer': [(r.get('extra') or {}).get('outcomes_differing_from_implementation_shaped_layer') for r in reads],
         'truncation_cases': sum(r['extra']['truncation_cases'] for r in reads),
-        'random_mutations_exploration': sum(r['extra']['random_mutations'] for r in reads),
+        'random_mutations_exploration': sum((r.get('extra') or {}).get('random_mutations', 0) for r in reads),
         'long_lived_reader_frames (one Framer, seeded orders, default and SetReuseFrames)': sum(r['actions'].get('long_lived_reader_frames', 0) for r in reads),
         'write_vectors': rw['steps'], 'write_by_method': rw['actions'],
         'rule': 'read: one case per (abstract frame, open-header-block state) edge of the TLC graph at read limits 16384 and 20; '
